@@ -69,6 +69,8 @@ mod windows;
 mod spaces;
 #[path = "c02/renamed.rs"]
 mod renamed;
+#[path = "c02/poollimit.rs"]
+mod poollimit;
 
 use windows::Intent;
 
@@ -93,6 +95,28 @@ struct Acc {
 	max_cascade_sites: u64,
 	/// cases whose tree is also written after renaming: (label, class file bytes)
 	queue: Vec<(String, Vec<u8>)>,
+	/// the pool-limit space, per family `site/kind renamed=<remapper>`
+	limit: BTreeMap<String, Limit>,
+}
+
+/// What one family of the pool-limit space showed: `constant_pool_count` of the files written (measured on the output by
+/// the strict parser) and, for the trees refused, the slots they need (measured by the reference assembler).
+#[derive(Default, Clone)]
+struct Limit {
+	last_slots: u8,
+	written: std::collections::BTreeSet<u32>,
+	refused_needing: std::collections::BTreeSet<u32>,
+	/// files written whose constant_pool_count is not what the reference assembler needs for the same description (information)
+	other_count: u64,
+}
+
+/// what `judge_tree` saw
+#[derive(Clone, Copy, PartialEq, Eq, Debug)]
+enum TreeOutcome {
+	/// well-formed output with this constant_pool_count
+	Written(u16),
+	Refused,
+	Other,
 }
 
 impl Acc {
@@ -125,6 +149,13 @@ impl Acc {
 		self.max_sites = self.max_sites.max(o.max_sites);
 		self.max_cascade_sites = self.max_cascade_sites.max(o.max_cascade_sites);
 		self.queue.extend(o.queue);
+		for (k, v) in o.limit {
+			let e = self.limit.entry(k).or_default();
+			e.last_slots = e.last_slots.max(v.last_slots);
+			e.written.extend(v.written);
+			e.refused_needing.extend(v.refused_needing);
+			e.other_count += v.other_count;
+		}
 		self
 	}
 }
@@ -186,22 +217,26 @@ fn judge(ctx: &Ctx, acc: &mut Acc, label: &str, bytes: &[u8], intent: Intent, pa
 
 /// The renamed-trees pass: the tree the reader built, renamed by the real `dukebox::remap::remap_class`, is what
 /// the writer is given. A renaming that fails or panics is C07's business.
-fn judge_renamed(ctx: &Ctx, acc: &mut Acc, label: &str, bytes: &[u8], mode: renamed::Mode) {
+///
+/// `measure` (pool-limit space): also returns how many pool slots the renamed description needs according to the
+/// reference assembler — information for the floors, never part of a verdict (so a replay judges exactly the same).
+fn judge_renamed(ctx: &Ctx, acc: &mut Acc, label: &str, bytes: &[u8], mode: renamed::Mode, measure: bool) -> (TreeOutcome, Option<u32>) {
 	let Ok(Ok(tree)) = vcore::guard(|| duke::read_class(&mut std::io::Cursor::new(bytes))) else {
 		acc.st.outcome("not-written:reader-refused (C01)");
-		return;
+		return (TreeOutcome::Other, None);
 	};
 	let tree = match vcore::guard(|| dukebox::remap::remap_class(&renamed::Renamer(mode), tree)) {
 		Err(_) => {
 			acc.st.outcome("not-written:renaming-panicked (C07)");
-			return;
+			return (TreeOutcome::Other, None);
 		},
 		Ok(Err(_)) => {
 			acc.st.outcome("not-written:renaming-refused (C07)");
-			return;
+			return (TreeOutcome::Other, None);
 		},
 		Ok(Ok(t)) => t,
 	};
+	let needed = if measure { cfmodel::duke_proj::project(&tree).ok().and_then(|e| poollimit::needed_slots(&e)) } else { None };
 	acc.ob("tree renamed by dukebox and given to the writer");
 	if label.starts_with("ldc/") {
 		// information for a floor: does the renamed tree take other ldc / ldc_w decisions than the tree it was made from?
@@ -223,18 +258,18 @@ fn judge_renamed(ctx: &Ctx, acc: &mut Acc, label: &str, bytes: &[u8], mode: rena
 	let reference = cfmodel::parse(bytes).ok();
 	let label = format!("{label} renamed={}", mode.name());
 	let lenient = Intent { strict: false, ..STRICT };
-	judge_tree(ctx, acc, &label, bytes, &tree, reference.as_ref(), lenient, Some(mode), None);
+	(judge_tree(ctx, acc, &label, bytes, &tree, reference.as_ref(), lenient, Some(mode), None), needed)
 }
 
 /// Writes `tree` with the real writer and judges the result against `project(tree)`. `reference` = the parse of the
 /// class file the tree (or, for a renamed tree, its original) was read from.
 #[allow(clippy::too_many_arguments)]
-fn judge_tree(ctx: &Ctx, acc: &mut Acc, label: &str, bytes: &[u8], tree: &duke::tree::class::ClassFile, reference: Option<&cfmodel::Parsed>, intent: Intent, renamed: Option<renamed::Mode>, input_rejection: Option<String>) {
+fn judge_tree(ctx: &Ctx, acc: &mut Acc, label: &str, bytes: &[u8], tree: &duke::tree::class::ClassFile, reference: Option<&cfmodel::Parsed>, intent: Intent, renamed: Option<renamed::Mode>, input_rejection: Option<String>) -> TreeOutcome {
 	let expected = match timed(5, || cfmodel::duke_proj::project(tree)) {
 		Ok(p) => p,
 		Err(_) => {
 			acc.st.outcome(if renamed.is_some() { "not-written:inconsistent-renamed-tree (C07)" } else { "not-written:inconsistent-tree (C01)" });
-			return;
+			return TreeOutcome::Other;
 		},
 	};
 	acc.st.distinct.add(&expected);
@@ -253,7 +288,7 @@ fn judge_tree(ctx: &Ctx, acc: &mut Acc, label: &str, bytes: &[u8], tree: &duke::
 			acc.st.outcome("panic");
 			acc.validated += 1;
 			ctx.diff(&format!("panic@{}:{}", p.file(), message_class(&p.msg)), &format!("write_class panicked at {}: {}", p.site, p.msg), || replay_text(label, bytes));
-			return;
+			return TreeOutcome::Other;
 		},
 		Ok(Err(e)) => {
 			acc.validated += 1;
@@ -279,7 +314,7 @@ fn judge_tree(ctx: &Ctx, acc: &mut Acc, label: &str, bytes: &[u8], tree: &duke::
 				}
 				acc.st.sample("clean-error", || json!({"label": label, "outcome": "clean error", "message": msg}));
 			}
-			return;
+			return TreeOutcome::Refused;
 		},
 		Ok(Ok(out)) => out,
 	};
@@ -288,12 +323,12 @@ fn judge_tree(ctx: &Ctx, acc: &mut Acc, label: &str, bytes: &[u8], tree: &duke::
 		Ok(p) => p,
 		Err(e) if intent.invalid_code && input_rejection.as_deref() == Some(message_class(&e.msg).as_str()) => {
 			acc.st.outcome("written:invalid-as-given (the input breaks the same code constraint)");
-			return;
+			return TreeOutcome::Other;
 		},
 		Err(e) => {
 			acc.st.outcome("ill-formed-output");
 			ctx.diff(&format!("output:ill-formed:{}", message_class(&e.msg)), &format!("the written file is not a well-formed class file: {e}"), || replay_text(label, bytes));
-			return;
+			return TreeOutcome::Other;
 		},
 	};
 	let (actual, info) = timed(8, || oracle::normalise(&expected, &parsed.class));
@@ -417,6 +452,52 @@ fn judge_tree(ctx: &Ctx, acc: &mut Acc, label: &str, bytes: &[u8], tree: &duke::
 		"long_form_sites_in_output": case_wide, "trampolines": case_folds,
 		"code_lengths": scans.iter().map(|s| s.code_length).collect::<Vec<_>>(),
 	}));
+	TreeOutcome::Written(parsed.pool_count)
+}
+
+/// One case of the pool-limit space (c02/poollimit.rs): the class is assembled, read by the real reader, renamed by the
+/// real renaming and given to the writer — judged by `judge_renamed` like every renamed tree. What is recorded besides
+/// serves the floors only.
+fn judge_pool_limit(ctx: &Ctx, acc: &mut Acc, family: &poollimit::Family, target: u32) {
+	let label = family.label(target);
+	let class = family.class(target);
+	let bytes = match timed(1, || assemble(&class, &Encoding::default())) {
+		Ok(b) => b,
+		Err(AsmError::Unencodable(_)) => {
+			acc.st.outcome("unencodable-skipped");
+			return;
+		},
+		Err(AsmError::Internal(e)) => vcore::machinery_fail(&format!("{label}: assembler: {e}")),
+	};
+	match timed(2, || cfmodel::parse(&bytes)) {
+		Ok(p) if p.class == class => {},
+		Ok(_) => vcore::machinery_fail(&format!("{label}: assembler and reference parser disagree")),
+		Err(e) => vcore::machinery_fail(&format!("{label}: the reference parser rejects an assembled class: {e}")),
+	}
+	drop(class);
+	let mode = family.mode;
+	let (outcome, needed) = vcore::watched(|| replay_text(&format!("{label} renamed={}", mode.name()), &bytes), || judge_renamed(ctx, acc, &label, &bytes, mode, true));
+	let Some(needed) = needed else {
+		acc.ob("pool-limit: case whose need of pool slots could not be measured");
+		return;
+	};
+	if needed == target {
+		acc.ob("pool-limit: renamed tree needs exactly the number of pool slots aimed at");
+	}
+	let e = acc.limit.entry(format!("{} renamed={}", family.tail.label(), mode.name())).or_default();
+	e.last_slots = family.tail.last_slots;
+	match outcome {
+		TreeOutcome::Written(count) => {
+			e.written.insert(count as u32);
+			if count as u32 != needed {
+				e.other_count += 1;
+			}
+		},
+		TreeOutcome::Refused => {
+			e.refused_needing.insert(needed);
+		},
+		TreeOutcome::Other => {},
+	}
 }
 
 fn judge_model(ctx: &Ctx, acc: &mut Acc, label: &str, model: &SClass, enc: &Encoding, intent: Intent, rename: bool) {
@@ -517,7 +598,7 @@ fn main() {
 		let once = |acc: &mut Acc| match mode {
 			Some(m) => {
 				silence_stderr();
-				judge_renamed(ctx, acc, "replay", &bytes, m);
+				judge_renamed(ctx, acc, "replay", &bytes, m, false);
 				restore_stderr();
 			},
 			None => judge(ctx, acc, "replay", &bytes, lenient, None, false),
@@ -665,7 +746,9 @@ fn main() {
 	silence_stderr();
 	let acc = queue.par_iter().fold(Acc::new, |mut acc, (label, bytes)| {
 		for mode in renamed::MODES {
-			vcore::watched(|| replay_text(&format!("{label} renamed={}", mode.name()), bytes), || judge_renamed(ctx, &mut acc, label, bytes, mode));
+			vcore::watched(|| replay_text(&format!("{label} renamed={}", mode.name()), bytes), || {
+				judge_renamed(ctx, &mut acc, label, bytes, mode, false);
+			});
 		}
 		acc
 	}).reduce(Acc::new, Acc::merge);
